@@ -117,6 +117,12 @@ func wholeFileVariants(src string, toks []RTok) []layoutVariant {
 		}
 		return t.Text
 	})})
+	out = append(out, layoutVariant{"empty-line-comment-every-break", -1, joinToks(toks, func(i int, t RTok) string {
+		if t.Kind == RNewline && i > 0 && toks[i-1].Kind != RComment {
+			return " //" + t.Text + "//\n"
+		}
+		return t.Text
+	})})
 	out = append(out, layoutVariant{"comment-line-every-break", -1, joinToks(toks, func(i int, t RTok) string {
 		if t.Kind == RNewline {
 			return t.Text + "\t// comment only\n"
@@ -230,6 +236,8 @@ func siteVariants(toks []RTok) []layoutVariant {
 			at("block-comment-line-after", i, "\t/* only a comment */\n", false)
 			at("line-comment-before-break", i, " // trailing", true)
 			at("crlf-at-this-break", i, "\r", true)
+			at("empty-line-comment-line-after", i, "//\n", false)
+			at("empty-line-comment-before-break", i, " //", true)
 			at("doc-comment-before-break", i, " /** d **/", true)
 			at("block-comment-before-break", i, " /* trailing */", true)
 			at("trailing-tab", i, "\t", true)
@@ -276,6 +284,16 @@ func c12Corpus(c *Check) []CorpusProg {
 		CorpusProg{"hand/minus", "a := 5\nb := a - 1\nc := a * -1\nd := []int{a - 1, -2}\nprint(b, c, d[0], a-1)\n"},
 		CorpusProg{"hand/functions", "func add(a int, b int) (int, string) {\n\treturn a + b, \"s\"\n}\n\nx, y := add(1, 2)\nprint(x, y)\nfor i := 0; i < 2; i++ {\n\tif i == 1 {\n\t\tcontinue\n\t} else if i == 5 {\n\t\tbreak\n\t} else {\n\t\tprint(i)\n\t}\n}\n"},
 		CorpusProg{"hand/slices-strings", "s := []string{\"a\", \"b\"}\ns[2] = \"c\"\nfor i, v := range s {\n\tprint(i, v)\n}\nt := \"hello\"\nprint(t[1:3], t[:2], t[3:], t[0], len(t), len(s))\n"},
+		// layouts the language does not accept: they must stay rejected however blank and comment lines are added
+		CorpusProg{"hand/rejected-else-on-next-line", "x := 1\nif x == 1 {\n\tprint(1)\n}\nelse {\n\tprint(2)\n}\n"},
+		CorpusProg{"hand/rejected-else-if-on-next-line", "x := 1\nif x == 1 {\n\tprint(1)\n}\nelse if x == 2 {\n\tprint(2)\n}\n"},
+		CorpusProg{"hand/rejected-brace-on-next-line", "x := 1\nif x == 1\n{\n\tprint(1)\n}\n"},
+		CorpusProg{"hand/rejected-func-brace-on-next-line", "func f()\n{\n\tprint(1)\n}\nf()\n"},
+		CorpusProg{"hand/rejected-for-clauses-on-lines", "for i := 0;\ni < 2;\ni++ {\n\tprint(i)\n}\n"},
+		CorpusProg{"hand/rejected-operator-at-line-start", "x := 1\n\t+ 2\nprint(x)\n"},
+		CorpusProg{"hand/rejected-call-arguments-on-lines", "print(1,\n\t2)\n"},
+		CorpusProg{"hand/rejected-two-statements-on-a-line", "x := 1 y := 2\nprint(x, y)\n"},
+		CorpusProg{"hand/rejected-case-on-switch-line", "x := 1\nswitch x { case 1:\n\tprint(1)\n}\n"},
 		CorpusProg{"hand/rejected-type", "x := 1\nif x {\n\tprint(1)\n}\n"},
 		CorpusProg{"hand/rejected-scope", "if true {\n\ty := 1\n}\nprint(y)\n"},
 		CorpusProg{"hand/rejected-syntax", "x := (1 + \nprint(x)\n"},
@@ -316,7 +334,7 @@ func c12Corpus(c *Check) []CorpusProg {
 }
 
 func checkC12(c *Check) {
-	c.Rule = "metamorphic: corpus = the suite's own programs (extracted from tests/*.go), std/*.tsh, examples/*.tsh, generated programs and hand-written accepted/rejected programs; re-layout operators applied to the whole file (CRLF everywhere, CRLF mixed with LF in three patterns, block comments spelled /** d **/, /***/, /**/ and /*/ x /* y */ in every gap, 4 re-indentations, trailing blanks, comment or blank line at every break, block comment (one-line and spanning two lines) / blank in every gap, final newline, leading blank/comment lines) and singly at every applicable site (blank/comment line after each line break, trailing comment before each break, block comment / blank / tab before each token, removal of each blank) for small programs, sampled sites for large ones; a variant counts only if the reference lexer confirms the token list is preserved; verdict: same accept/reject and byte-identical scripts for both targets. Non-trivial = variant text differs from the original; distinct = SHA-256 of variant text"
+	c.Rule = "metamorphic: corpus = the suite's own programs (extracted from tests/*.go), std/*.tsh, examples/*.tsh, generated programs and hand-written accepted/rejected programs; re-layout operators applied to the whole file (CRLF everywhere, CRLF mixed with LF in three patterns, block comments spelled /** d **/, /***/, /**/ and /*/ x /* y */ in every gap, 4 re-indentations, trailing blanks, comment or blank line at every break, block comment (one-line and spanning two lines) / blank in every gap, final newline, leading blank/comment lines) and singly at every applicable site (blank/comment line incl. a text-less // after each line break, trailing comment before each break, block comment / blank / tab before each token, removal of each blank) for small programs, sampled sites for large ones; a variant counts only if the reference lexer confirms the token list is preserved; verdict: same accept/reject and byte-identical scripts for both targets. Non-trivial = variant text differs from the original; distinct = SHA-256 of variant text"
 	c.Assumptions = []string{"token preservation is decided by the reference lexer (newline runs collapsed, leading/trailing newlines ignored)", "imports of std files resolve next to the harness binary (copied from /repo/std at check time)"}
 	runProbes(c, bashProbeJudge)
 	corpus := c12Corpus(c)
@@ -378,6 +396,10 @@ func checkC12(c *Check) {
 						return " // trailing" + t.Text
 					case "crlf-at-this-break":
 						return "\r" + t.Text
+					case "empty-line-comment-line-after":
+						return t.Text + "//\n"
+					case "empty-line-comment-before-break":
+						return " //" + t.Text
 					case "doc-comment-before-break":
 						return " /** d **/" + t.Text
 					case "block-comment-before-break":
